@@ -225,8 +225,64 @@ def _same(a, b):
   return a == b
 
 
+# ---------------------------------------------------------------- float32 regime (on demand)
+# A z3 FloatingPoint term as an array element switches the scalar operations below to IEEE float32 with round-to-nearest-even
+# (what TensorFlow's CPU kernels do for these elementwise ops).  Only what the float32 cases need is modelled: + - * / neg abs,
+# comparisons, max/min/select, constants that are exactly representable.  Everything else raises HarnessError (inconclusive).
+_F32 = z3.Float32()
+
+
+def is_fp(x):
+  return isinstance(x, z3.FPRef)
+
+
+def _fpc(x):
+  if is_fp(x):
+    return x
+  if isinstance(x, Inf):
+    return z3.fpPlusInfinity(_F32) if x.v > 0 else z3.fpMinusInfinity(_F32)
+  if isinstance(x, (bool, np.bool_)) or isinstance(x, z3.ExprRef) or isinstance(x, Frac):
+    raise HarnessError('float32 regime: unsupported operand %r' % (x,))
+  f = float(np.float32(float(x)))
+  if Fraction(f) != Fraction(x):
+    raise HarnessError('float32 regime: constant %r is not a float32 value' % (x,))
+  return z3.FPVal(f, _F32)
+
+
+def _fp_bin(op, a, b):
+  if op == 'mul':
+    if not is_fp(a) and not isinstance(a, Inf) and a == 1:
+      return b
+    if not is_fp(b) and not isinstance(b, Inf) and b == 1:
+      return a
+  if op in ('add', 'sub') and not is_fp(b) and not isinstance(b, Inf) and b == 0:
+    return a
+  if op == 'add' and not is_fp(a) and not isinstance(a, Inf) and a == 0:
+    return b
+  if op == 'div' and not is_fp(b) and not isinstance(b, Inf) and b == 1:
+    return a
+  fn = {'add': z3.fpAdd, 'sub': z3.fpSub, 'mul': z3.fpMul, 'div': z3.fpDiv}[op]
+  return fn(z3.RNE(), _fpc(a), _fpc(b))
+
+
+def _fp_cmp(op, a, b):
+  A, B = _fpc(a), _fpc(b)
+  if op == 'ne':
+    return z3.Not(z3.fpEQ(A, B))
+  return {'lt': z3.fpLT, 'le': z3.fpLEQ, 'gt': z3.fpGT, 'ge': z3.fpGEQ, 'eq': z3.fpEQ}[op](A, B)
+
+
+def fp_value(term, model):
+  """float value of a float32 term under a model"""
+  import struct
+  bv = model.eval(z3.fpToIEEEBV(term), model_completion=True).as_long()
+  return struct.unpack('<f', struct.pack('<I', bv))[0]
+
+
 # ---------------------------------------------------------------- arithmetic
 def s_add(a, b):
+  if is_fp(a) or is_fp(b):
+    return _fp_bin('add', a, b)
   if isinstance(a, Frac) or isinstance(b, Frac):
     if isinstance(a, Inf) or isinstance(b, Inf):
       raise HarnessError('inf arithmetic with Frac')
@@ -250,6 +306,8 @@ def s_add(a, b):
 
 
 def s_neg(a):
+  if is_fp(a):
+    return z3.fpNeg(a)
   if isinstance(a, Frac):
     return Frac(s_neg(a.n), a.d)
   if isinstance(a, Inf):
@@ -258,6 +316,8 @@ def s_neg(a):
 
 
 def s_sub(a, b):
+  if is_fp(a) or is_fp(b):
+    return _fp_bin('sub', a, b)
   if not is_sym(a) and not is_sym(b) and not isinstance(a, Inf) and not isinstance(b, Inf):
     return a - b
   if is_z(a) and is_z(b):
@@ -270,6 +330,8 @@ def s_sub(a, b):
 
 
 def s_mul(a, b):
+  if is_fp(a) or is_fp(b):
+    return _fp_bin('mul', a, b)
   if isinstance(a, Frac) and isinstance(b, Frac):
     return Frac(s_mul(a.n, b.n), s_mul(a.d, b.d))
   if isinstance(a, Frac):
@@ -316,6 +378,8 @@ def _ieee_div_by_zero(a):
 
 
 def s_div(a, b):
+  if is_fp(a) or is_fp(b):
+    return _fp_bin('div', a, b)
   if isinstance(a, Inf) or isinstance(b, Inf):
     return _inf_arith('div', a, b)
   if not is_sym(b) and b == 0 and ctx().memo.get('ieee_div0'):
@@ -420,6 +484,8 @@ def _common(a, b):
 
 
 def s_cmp(op, a, b):
+  if is_fp(a) or is_fp(b):
+    return _fp_cmp(op, a, b)
   if isinstance(a, Frac) or isinstance(b, Frac):
     if isinstance(a, Inf) or isinstance(b, Inf):
       fin = a if isinstance(b, Inf) else b
@@ -442,6 +508,8 @@ def s_cmp(op, a, b):
 
 
 def s_ite(c, a, b):
+  if is_fp(a) or is_fp(b):
+    return z3.If(c, _fpc(a), _fpc(b)) if is_z(c) else (a if c else b)
   if not is_z(c):
     return a if c else b
   if isinstance(a, Inf) or isinstance(b, Inf):
@@ -464,6 +532,9 @@ def s_ite(c, a, b):
 
 
 def s_max(a, b):
+  if is_fp(a) or is_fp(b):
+    A, B = _fpc(a), _fpc(b)
+    return z3.If(z3.fpGEQ(A, B), A, B)
   if not is_sym(a) and not is_sym(b):
     if isinstance(a, Inf) or isinstance(b, Inf):
       return a if _cmp_plain('ge', a, b) else b
@@ -483,6 +554,9 @@ def s_max(a, b):
 
 
 def s_min(a, b):
+  if is_fp(a) or is_fp(b):
+    A, B = _fpc(a), _fpc(b)
+    return z3.If(z3.fpLEQ(A, B), A, B)
   if not is_sym(a) and not is_sym(b):
     if isinstance(a, Inf) or isinstance(b, Inf):
       return a if _cmp_plain('le', a, b) else b
@@ -502,6 +576,8 @@ def s_min(a, b):
 
 
 def s_abs(a):
+  if is_fp(a):
+    return z3.fpAbs(a)
   if isinstance(a, Frac):
     return s_max(a, s_neg(a))
   if isinstance(a, Inf):
@@ -750,4 +826,12 @@ def z3_to_py(v):
     return Fraction(a.numerator_as_long(), a.denominator_as_long())
   if z3.is_int_value(v):
     return v.as_long()
+  if isinstance(v, z3.FPNumRef):
+    if v.isNaN():
+      return None
+    if v.isInf():
+      return float('-inf') if v.isNegative() else float('inf')
+    import struct
+    bits = (int(v.sign()) << 31) | (v.exponent_as_long(biased=True) << 23) | v.significand_as_long()
+    return Fraction(struct.unpack('<f', struct.pack('<I', bits))[0])
   raise HarnessError('cannot read model value %s' % v)
